@@ -341,6 +341,174 @@ def run_step(w, step, act):
 
 
 # ------------------------------------------------------------------------------------------------
+# HTTP/2 client and server peers (oracle only: the six predicates on the hook trace; no model tie)
+class H2Pair:
+    def __init__(self, w):
+        import h2.connection, h2.config
+        self.w = w
+        self.cli = h2.connection.H2Connection(h2.config.H2Configuration(client_side=True))
+        self.srv = h2.connection.H2Connection(h2.config.H2Configuration(client_side=False))
+        self.cli.initiate_connection()
+        self.srv_started = False
+        self.spos = self.cpos = 0
+        self.up = {}           # path -> upstream stream id (as the server sees it)
+        self.sids = {}         # script stream index -> client stream id
+
+    def flush_client(self):
+        out = self.cli.data_to_send()
+        if out: self.w.recv("client", out)
+        self.pump()
+
+    def flush_server(self):
+        out = self.srv.data_to_send()
+        if out and "server0" in self.w.conns: self.w.recv("server0", out)
+        self.pump()
+
+    def pump(self):
+        import h2.events, h2.exceptions
+        for _ in range(6):
+            moved = False
+            if "server0" in self.w.conns:
+                data = bytes(self.w.sent.get("server0", b""))[self.spos:]; self.spos += len(data)
+                if data:
+                    moved = True
+                    if not self.srv_started:
+                        self.srv.initiate_connection(); self.srv_started = True
+                    try:
+                        for e in self.srv.receive_data(data):
+                            if isinstance(e, h2.events.RequestReceived):
+                                path = dict((bytes(k), bytes(v)) for k, v in e.headers).get(b":path", b"").decode()
+                                self.up[path] = e.stream_id
+                            elif isinstance(e, h2.events.DataReceived):
+                                self.srv.acknowledge_received_data(e.flow_controlled_length, e.stream_id)
+                    except h2.exceptions.ProtocolError:
+                        pass
+                    out = self.srv.data_to_send()
+                    if out: self.w.recv("server0", out)
+            data = bytes(self.w.sent.get("client", b""))[self.cpos:]; self.cpos += len(data)
+            if data:
+                moved = True
+                try:
+                    for e in self.cli.receive_data(data):
+                        if isinstance(e, h2.events.DataReceived):
+                            self.cli.acknowledge_received_data(e.flow_controlled_length, e.stream_id)
+                except h2.exceptions.ProtocolError:
+                    pass
+                out = self.cli.data_to_send()
+                if out: self.w.recv("client", out)
+            if not moved: break
+
+    def step(self, st):
+        import h2.exceptions
+        k = st[0]
+        try:
+            if k == "creq":
+                _, i, n, end = st[:4]
+                sid = 1 + 2 * len(self.sids); self.sids[i] = sid
+                hdr = [(":method", "POST" if n or not end else "GET"), (":scheme", "http"), (":authority", "example.com"), (":path", f"/{i}")]
+                self.cli.send_headers(sid, hdr, end_stream=bool(end and not n))
+                if n: self.cli.send_data(sid, b"q" * n, end_stream=bool(end))
+                self.flush_client()
+            elif k == "cdata":
+                _, i, n, end = st[:4]
+                self.cli.send_data(self.sids[i], b"q" * n, end_stream=bool(end)); self.flush_client()
+            elif k == "ctrailers":
+                self.cli.send_headers(self.sids[st[1]], [("x-trailer", "t")], end_stream=True); self.flush_client()
+            elif k == "crst":
+                self.cli.reset_stream(self.sids[st[1]]); self.flush_client()
+            elif k in ("sresp", "sdata", "strailers", "srst"):
+                self.pump()
+                sid = self.up.get(f"/{st[1]}")
+                if sid is None: return
+                if k == "sresp":
+                    _, i, n, end = st[:4]
+                    self.srv.send_headers(sid, [(":status", "200")], end_stream=bool(end and not n))
+                    if n: self.srv.send_data(sid, b"r" * n, end_stream=bool(end))
+                elif k == "sdata":
+                    self.srv.send_data(sid, b"r" * st[2], end_stream=bool(st[3]))
+                elif k == "strailers":
+                    self.srv.send_headers(sid, [("x-trailer", "t")], end_stream=True)
+                else:
+                    self.srv.reset_stream(sid)
+                self.flush_server()
+        except (h2.exceptions.ProtocolError, KeyError):
+            pass          # the script addresses a stream the peer has already closed: nothing to send
+
+
+def run_h2(case):
+    """an HTTP/2 client and an HTTP/2 server around the real HttpLayer; returns [(flow, hooknames)]"""
+    opts = case.get("opts", {})
+    ctx = make_context(); ctx.client.alpn = b"h2"
+    if opts.get("limit"): ctx.options.body_size_limit = str(opts["limit"])
+    if opts.get("stream"): ctx.options.stream_large_bodies = str(opts["stream"])
+    policy, defer = case.get("policy", {}), case.get("defer", {})
+    flows, flow_hooks, state = [], {}, {"final": False}
+
+    def ordinal(f):
+        for i, g in enumerate(flows):
+            if g is f: return i
+        flows.append(f); flow_hooks[id(f)] = []
+        return len(flows) - 1
+
+    def act(hook):
+        f, a = hook.flow, getattr(hook, "_v_action", "pass")
+        if a == "kill":
+            if f.killable: f.kill()
+        elif a == "resp": f.response = mhttp.Response.make(200, b"made")
+        elif a == "stream":
+            if hook.name in ("requestheaders", "request"): f.request.stream = True
+            elif f.response is not None: f.response.stream = True
+
+    def on_hook(w, hook):
+        f = getattr(hook, "flow", None)
+        if not isinstance(f, mhttp.HTTPFlow): return None
+        i = ordinal(f); flow_hooks[id(f)].append(hook.name)
+        pl = policy.get(hook.name, [])
+        hook._v_action = pl[i] if i < len(pl) else "pass"
+        dl = defer.get(hook.name, [])
+        if not state["final"] and i < len(dl) and dl[i]: return "defer"
+        act(hook)
+        return None
+
+    def on_connect(w, cmd):
+        cmd.connection.alpn = b"h2"
+        return "connect failed" if case.get("connfail") else None
+
+    w = PreciseWorld(lhttp.HttpLayer(ctx, HTTPMode.regular), ctx, on_hook=on_hook, on_connect=on_connect)
+    w.start()
+    pair = H2Pair(w)
+    for st in case["steps"]:
+        if st[0] == "cclose": w.peer_close("client")
+        elif st[0] == "sclose":
+            if "server0" in w.conns: w.peer_close("server0")
+        elif st[0] == "resume":
+            if w.deferred_hooks:
+                h = w.deferred_hooks[0]; act(h); w.resume(h); pair.pump()
+        else: pair.step(st)
+    state["final"] = True
+    w.peer_close("client"); w.force_close_client()
+    if not w.torn_down: w.teardown()
+    for _ in range(50):
+        if w.deferred_hooks:
+            h = w.deferred_hooks[0]; act(h); w.resume(h)
+        elif any(c is not ctx.client for c in w.transports): w.close_all_servers()
+        else: break
+    return w, [(f, flow_hooks[id(f)]) for f in flows]
+
+
+H2_SKELETONS = [
+    ("h2-get", [["creq", 0, 0, 1], ["sresp", 0, 4, 1]]),
+    ("h2-post-split", [["creq", 0, 3, 0], ["cdata", 0, 4, 1], ["sresp", 0, 2, 0], ["sdata", 0, 3, 1]]),
+    ("h2-trailers", [["creq", 0, 3, 0], ["ctrailers", 0], ["sresp", 0, 2, 0], ["strailers", 0]]),
+    ("h2-two-streams", [["creq", 0, 2, 0], ["creq", 1, 0, 1], ["sresp", 1, 3, 1], ["cdata", 0, 2, 1], ["sresp", 0, 1, 1]]),
+    ("h2-early-response", [["creq", 0, 20, 0], ["sresp", 0, 2, 1], ["cdata", 0, 20, 1]]),
+    ("h2-big", [["creq", 0, 30, 1], ["sresp", 0, 16, 0], ["sdata", 0, 16, 1]]),
+    ("h2-three", [["creq", 0, 0, 1], ["creq", 1, 0, 1], ["creq", 2, 1, 1], ["sresp", 2, 1, 1], ["sresp", 0, 0, 1], ["sresp", 1, 2, 1]]),
+]
+H2_FAULTS = [["crst", 0], ["srst", 0], ["crst", 1], ["cclose"], ["sclose"], ["connfail"]]
+
+
+# ------------------------------------------------------------------------------------------------
 # skeletons: (name, [steps])
 def _skeletons():
     S = []
@@ -567,6 +735,20 @@ class Check(PropertyCheck):
                         if a == "pass" and not d: continue
                         for opts in (OPTS if tier == "thorough" else [rng.pick(OPTS)]):
                             yield self._case(name, steps, {h: [a, a]}, {h: [d, d]} if d else {}, opts=opts)
+        # HTTP/2 client/server pairs (oracle only): skeletons × fault at every step × policies
+        for name, steps in H2_SKELETONS:
+            yield {"h2": 1, "sk": name, "steps": steps, "policy": {}, "defer": {}, "opts": {}}
+            for fault in H2_FAULTS:
+                for pos in range(len(steps) + 1):
+                    if fault == ["connfail"]:
+                        yield {"h2": 1, "sk": name, "steps": steps, "policy": {}, "defer": {}, "opts": {}, "connfail": 1}; break
+                    yield {"h2": 1, "sk": name, "steps": steps[:pos] + [fault] + steps[pos:], "policy": {}, "defer": {}, "opts": rng.pick(OPTS)}
+            for h, acts in HOOK_ACTIONS.items():
+                for a in acts:
+                    for d in (0, 1):
+                        if a == "pass" and not d: continue
+                        st = list(steps) + ([["resume"]] * 2 if d and rng.chance(0.5) else [])
+                        yield {"h2": 1, "sk": name, "steps": st, "policy": {h: [a, a, a]}, "defer": {h: [d, d, d]} if d else {}, "opts": rng.pick(OPTS)}
         if tier == "thorough":
             # policy × fault × position
             for name, steps in SKELETONS:
@@ -578,9 +760,23 @@ class Check(PropertyCheck):
                                 d = rng.randint(0, 1)
                                 yield self._case(name, st, {h: [a, a]}, {h: [d, d]} if d else {}, conn, rng.pick(OPTS))
         while True:
-            yield self._random_case(rng)
+            if rng.chance(0.15):
+                name, steps = rng.pick(H2_SKELETONS)
+                steps = [list(x) for x in steps]
+                for _ in range(rng.randint(0, 2)):
+                    f = rng.pick(H2_FAULTS[:5]); steps.insert(rng.randint(0, len(steps)), f)
+                policy, defer = {}, {}
+                for h, acts in HOOK_ACTIONS.items():
+                    if rng.chance(0.4): policy[h] = [rng.pick(acts) if rng.chance(0.6) else "pass" for _ in range(3)]
+                    if rng.chance(0.25): defer[h] = [int(rng.chance(0.6)) for _ in range(3)]
+                for _ in range(rng.randint(0, 3)): steps.insert(rng.randint(0, len(steps)), ["resume"])
+                yield {"h2": 1, "sk": name, "steps": steps, "policy": policy, "defer": defer, "opts": rng.pick(OPTS)}
+            else:
+                yield self._random_case(rng)
 
     def impl(self, case):
+        if case.get("h2"):
+            return self._impl_h2(case)
         w, rec, flows = run_script(case)
         self._last_obs = None
         out = {"flows": [], "streams": [], "crashes": [e[0] for e in w.errors], "open": len(w.transports),
@@ -600,6 +796,16 @@ class Check(PropertyCheck):
         self._last_obs = (case, out)
         return out
 
+    def _impl_h2(self, case):
+        w, flows = run_h2(case)
+        out = {"flows": [], "streams": [], "crashes": [e[0] for e in w.errors], "open": len(w.transports),
+               "pending": len(w.deferred_hooks), "h2": True}
+        for f, names in flows:
+            out["flows"].append({"hooks": names, "live": bool(f.live), "connect": f.request.method == "CONNECT",
+                                 "upgraded": bool(f.websocket), "req_streamed": bool(f.request.stream)})
+        self._last_obs = (case, out)
+        return out
+
     def oracle(self, case, obs):
         fails = []
         if obs["open"] or obs["pending"]:
@@ -611,10 +817,10 @@ class Check(PropertyCheck):
 
     def classify(self, case, obs):
         if not any("requestheaders" in f["hooks"] for f in obs["flows"]): return None
-        return json.dumps([case["script"], case["policy"], case["defer"], case["connect"], case["opts"]], sort_keys=True)
+        return json.dumps([case.get("script", case.get("steps")), case["policy"], case["defer"], case.get("connect"), case["opts"], case.get("h2", 0)], sort_keys=True)
 
     def branches(self, case, obs):
-        out = ["sk:" + str(case.get("sk"))]
+        out = ["sk:" + str(case.get("sk"))] + (["http2"] if case.get("h2") else [])
         for f in obs["flows"]:
             t = f["hooks"]
             out.append("outcome:" + ("response" if "response" in t else "error" if "error" in t else "none"))
@@ -632,6 +838,7 @@ class Check(PropertyCheck):
         return sorted(set(out))
 
     def neighbours(self, case, rng):
+        if case.get("h2"): return
         steps = case["script"]
         for pos in range(len(steps) + 1):
             for fault in FAULTS[:6]:
@@ -656,6 +863,7 @@ class Check(PropertyCheck):
 
     # ---- model tie: every real HttpStream's input sequence is replayed through the Lean model -----------------
     def model_lines(self, case):
+        if case.get("h2"): return None          # HTTP/2 exchanges: direct oracle only
         obs = getattr(self, "_last_obs", None)
         if obs is None or obs[0] is not case:
             obs = (case, self.impl(case))
@@ -707,7 +915,7 @@ class Check(PropertyCheck):
             # after everything is closed and every hook completed: the model must agree that the stream is settled,
             # that no input fell outside its event grammar, and that nothing is pending
             end = (f"live={int(st['live'])} cs={st['cs']} ss={st['ss']} pt={int(ispt)} settled=1 bad=0 paused=0 "
-                   f"streamed={int(st['streamed_up'])} ws={int(st['websocket'])}")
+                   f"streamed={int(st['streamed_up'])} ws={int(st['websocket'])} adm=1")
             cur.append(self._norm_end(end, any("H:requestheaders" in c.split() for c in cur)))
             out.append(cur)
         return out
